@@ -45,7 +45,9 @@ RDiv(x, y) == IF IsNaN(x) \/ IsNaN(y) THEN NaN
               ELSE IF IsInf(y) THEN RZero
               ELSE IF y[1] = 0 THEN (IF x[1] = 0 THEN RZero ELSE Inf)
               ELSE XMul(x[1], x[2], y[2], y[1])
-RLe(x, y) == IF IsInf(y) THEN TRUE ELSE IF IsInf(x) THEN FALSE ELSE x[1] * y[2] <= y[1] * x[2]
+\* (compared over the least common denominator: values of one table share most of their denominators, the products stay small)
+RLe(x, y) == IF IsInf(y) THEN TRUE ELSE IF IsInf(x) THEN FALSE
+             ELSE LET g == GCD(x[2], y[2]) IN x[1] * (y[2] \div g) <= y[1] * (x[2] \div g)
 
 Assign(dom, S) == {f \in [S -> UNION {ToSet(dom[v]) : v \in S}] : \A v \in S : f[v] \in ToSet(dom[v])}
 Restr(a, S) == [v \in S |-> a[v]]
